@@ -278,6 +278,26 @@ pub async fn reader_suite<TC: ModelCfg, R: Reader<TC>>(
             }
         }
     }
+    // one batched lookup of every published label: same per-label results
+    if model.users.len() >= 2 {
+        let labels: Vec<Vec<u8>> = model.users.keys().cloned().collect();
+        let akd_labels: Vec<AkdLabel> = labels.iter().map(|l| AkdLabel(l.clone())).collect();
+        match r.r_batch_lookup(&akd_labels).await {
+            Err(err) => bads.push(bad("batch_lookup_failed", json!({"error": format!("{err:?}")}))),
+            Ok((proofs, eh)) => {
+                if eh.0 != e || eh.1 != published[e as usize] || proofs.len() != labels.len() {
+                    bads.push(bad("batch_lookup_wrong_epoch_hash_or_shape", json!({"epoch": eh.0, "proofs": proofs.len()})));
+                } else {
+                    for (l, p) in labels.iter().zip(proofs.into_iter()) {
+                        match verify_lookup::<TC>(l, p, &eh) {
+                            Ok(vr) if Some(&vr) == model.latest(l).as_ref() => {}
+                            other => bads.push(bad("batch_lookup_wrong_or_unverifiable", json!({"label": show_bytes(l), "got": format!("{other:?}")}))),
+                        }
+                    }
+                }
+            }
+        }
+    }
     for l in absent {
         if model.users.contains_key(l) {
             continue;
